@@ -259,7 +259,11 @@ class BIFReader(object):
         variable_properties = {}
         for block in self.variable_block():
             name = self.name_expr.searchString(block)[0][0]
-            properties = self.property_expr.searchString(block)
+            # Property statements follow the type statement; the variable's name and its
+            # state names (which may contain the word "property") come before its end.
+            type_end = re.search(r"\}\s*;", block)
+            body = block[type_end.end() :] if type_end else ""
+            properties = self.property_expr.searchString(body)
             variable_properties[name] = [y.strip() for x in properties for y in x]
         return variable_properties
 
